@@ -29,8 +29,10 @@
 
 #define XV_CALLS_MAX (1L << 40)            /* ghost counters start below this ...                              */
 #define XV_CALLS_LIM (XV_CALLS_MAX + 64)   /* ... and every stub accepts them below this (a wrapper makes <= 6 calls) */
+#ifndef XV_PRIV_MAX
 #define XV_PRIV_MAX (1UL << 24)            /* TRUSTED: a transport's private area is smaller than 16 MiB (the largest real
                                               one, struct btls_socket, is a few KiB); keeps sizeof()+priv_size from wrapping */
+#endif
 
 enum xv_op_kind { XV_OP_NONE, XV_OP_INIT, XV_OP_CONNECT, XV_OP_SERVER, XV_OP_ACCEPT, XV_OP_SEND, XV_OP_RECEIVE, XV_OP_FINISH,
                   XV_OP_CLOSE, XV_OP_CLEANUP };
@@ -39,10 +41,12 @@ long xv_seq;                               /* ticks in every stub */
 /* the transport operation proper: which, when, on which socket, with which arguments, what it returned, errno it left */
 long xv_op_calls; int xv_op_kind; long xv_op_seq; const struct xcm_socket *xv_op_s; const void *xv_op_a1; size_t xv_op_a2;
 int xv_op_rv; int xv_op_errno;
-/* update(): all calls / the calls on the tracked socket xv_t.  (No "socket updated last" pointer: a pointer-typed ghost that
- * a replaced contract equates with its argument makes every path on which that contract runs TWICE with different
- * arguments infeasible in CBMC 6.11 -- silently; only the canaries of job accept noticed.  Pointer records below are
- * written at most once per path.) */
+/* update(): all calls / the calls on the tracked socket xv_t.  (No "socket updated last" pointer: a POINTER-typed ghost
+ * that a replaced contract equates with its argument (`ensures(g == s)`) makes every path on which that contract is applied
+ * TWICE with two different pointers infeasible in CBMC 6.11 -- silently: the DFCC havoc of a pointer-typed target gives the
+ * same value at both call sites; only the canaries of job accept noticed (reproduction: 25 lines, reported to the
+ * framework).  Integer ghosts are not affected.  The pointer records of this file are written at most once per path, or
+ * with the same value -- job lifecycle therefore passes NULL addresses/buffers.) */
 long xv_upd_calls; long xv_upd_seq;
 const struct xcm_socket *xv_t; long xv_updt_calls; long xv_updt_seq;
 /* the transport's own enable_ctl operation */
@@ -56,6 +60,9 @@ long xv_ctld_calls; long xv_ctld_seq; const struct ctl *xv_ctld_arg; _Bool xv_ct
 long xv_ctl_live;                          /* control interfaces created and not yet destroyed */
 /* get_next_sock_id */
 long xv_id_calls; int64_t xv_id_ret;
+/* ghost constants (never assigned): the entry state of the socket under proof, bound by a requires clause (G_BIND), so that
+ * the canaries of the harnesses can name INPUT scenarios (a canary that names an outcome dies with the property) */
+_Bool xv_g_ctl, xv_g_auto_upd, xv_g_auto_ctl, xv_g_own_en; uint64_t xv_g_skipped;
 
 #define XV_C_OK(c, lim) ((c) >= 0 && (c) < (lim))
 #define XV_TP_RANGE(lim, lo) (XV_C_OK(xv_seq, lim) && XV_C_OK(xv_op_calls, lim) && XV_C_OK(xv_upd_calls, lim) && XV_C_OK(xv_updt_calls, lim) && \
@@ -196,6 +203,10 @@ __CPROVER_ensures(XV_INC(xv_id_calls) && __CPROVER_return_value == xv_id_ret)
 #define HDR_SAME_BUT_CTL(s) (XV_SAME((s)->proto) && XV_SAME((s)->type) && XV_SAME((s)->sock_id) && XV_SAME((s)->auto_enable_ctl) && \
         XV_SAME((s)->auto_update) && XV_SAME((s)->is_blocking) && XV_SAME((s)->xpoll) && XV_SAME((s)->condition))
 #define HDR_SAME(s) (HDR_SAME_BUT_CTL(s) && XV_SAME((s)->ctl) && XV_SAME((s)->skipped_ctl_calls))
+#define G_BIND_CTL(s) (xv_g_ctl == ((s)->ctl != NULL) && xv_g_skipped == (s)->skipped_ctl_calls)
+#define G_BIND_AUTO(s) (xv_g_auto_upd == ((s)->auto_update != 0) && xv_g_auto_ctl == ((s)->auto_enable_ctl != 0) && \
+                        xv_g_own_en == ((s)->proto->ops->enable_ctl != NULL))
+#define G_BIND(s) (G_BIND_CTL(s) && G_BIND_AUTO(s))
 #define NO_CTLP (XV_SAME(xv_ctlp_calls) && XV_SAME(xv_ctlp_seq) && XV_SAME(xv_ctlp_arg))
 #define NO_CTLC (XV_SAME(xv_ctlc_calls) && XV_SAME(xv_ctl_live) && XV_SAME(xv_en_calls))
 #define NO_CTLD (XV_SAME(xv_ctld_calls) && XV_SAME(xv_ctl_live))
@@ -207,7 +218,7 @@ __CPROVER_ensures(XV_INC(xv_id_calls) && __CPROVER_return_value == xv_id_ret)
 
 /* ---- do_ctl: poll the control interface now, if there is one -------------------------------------------------- */
 static void do_ctl(struct xcm_socket *s)
-__CPROVER_requires(__CPROVER_is_fresh(s, sizeof(*s)) && XV_TP_RANGE_IN)
+__CPROVER_requires(__CPROVER_is_fresh(s, sizeof(*s)) && XV_TP_RANGE_IN && G_BIND_CTL(s))
 __CPROVER_assigns(xv_seq, CTLP_ASSIGNS)
 /* PO[C14] do_ctl.no_ctl_no_call */
 __CPROVER_ensures(s->ctl == NULL ==> (XV_SAME(xv_seq) && NO_CTLP))
@@ -233,7 +244,7 @@ __CPROVER_ensures(XV_SAME(xv_errno) && HDR_SAME(s))
 #define CTL_N (xv_ctlp_calls - __CPROVER_old(xv_ctlp_calls))
 
 static void consider_ctl(struct xcm_socket *s, bool permanently_failed_op, bool temporarly_failed_op)
-__CPROVER_requires(__CPROVER_is_fresh(s, sizeof(*s)) && SKIPPED_OK(s) && XV_TP_RANGE_IN)
+__CPROVER_requires(__CPROVER_is_fresh(s, sizeof(*s)) && SKIPPED_OK(s) && XV_TP_RANGE_IN && G_BIND_CTL(s))
 __CPROVER_assigns(xv_seq, CTLP_ASSIGNS, s->skipped_ctl_calls)
 /* PO[C14] consider_ctl.rate: no ctl or permanent failure => nothing; else processed exactly when the counter would pass 256 */
 __CPROVER_ensures(CTL_RATE(s, permanently_failed_op, temporarly_failed_op))
@@ -274,7 +285,7 @@ __CPROVER_ensures(xv_seq == __CPROVER_old(xv_seq) + 1 && XV_INC(xv_op_calls) && 
 #define CTL_PENDING_OK(s) ((s)->auto_enable_ctl ==> (s)->ctl == NULL)
 
 void xcm_tp_socket_enable_ctl(struct xcm_socket *s)
-__CPROVER_requires(SOCK_REQ(s) && XV_TP_RANGE_IN && s->ctl == NULL)
+__CPROVER_requires(SOCK_REQ(s) && XV_TP_RANGE_IN && s->ctl == NULL && G_BIND(s))
 __CPROVER_assigns(xv_errno, xv_seq, EN_ASSIGNS, CTLC_ASSIGNS, xv_ctl_live, s->ctl)
 /* PO[C14,C08] xcm_tp_socket_enable_ctl.one_interface: one enable (transport's own, else ctl_create(s) stored in s->ctl); accounted */
 __CPROVER_ensures(xv_seq == __CPROVER_old(xv_seq) + 1 && CTL_ENABLED_AT(s, 1) && CTL_LIVE_FOLLOWS(s))
@@ -290,7 +301,7 @@ __CPROVER_ensures(HDR_SAME_BUT_CTL(s) && XV_SAME(s->skipped_ctl_calls))
 #define AUTO_EN_N(s) ((s)->auto_enable_ctl ? 1 : 0)
 #define AUTO_UPD_N(s) ((s)->auto_update ? 1 : 0)
 #define CONNECT_REQ(s) \
-__CPROVER_requires(SOCK_REQ(s) && XV_TP_RANGE_IN && CTL_PENDING_OK(s)) \
+__CPROVER_requires(SOCK_REQ(s) && XV_TP_RANGE_IN && CTL_PENDING_OK(s) && G_BIND(s)) \
 __CPROVER_assigns(OP_ASSIGNS, UPD_ASSIGNS, EN_ASSIGNS, CTLP_ASSIGNS, CTLC_ASSIGNS, xv_ctl_live, (s)->ctl)
 #define CONNECT_OP_ONCE(KIND, s, addr) \
 __CPROVER_ensures(XV_INC(xv_op_calls) && xv_op_kind == (KIND) && xv_op_s == (s) && xv_op_a1 == (addr) && \
@@ -323,6 +334,7 @@ CONNECT_SUCCESS_ERRNO(s)
 CONNECT_CTL_POLL(s)
 /* PO[C14,C08] xcm_tp_socket_connect.ctl_enabled_iff_success_and_auto */
 CONNECT_CTL_ENABLE(s)
+/* PO[C14] xcm_tp_socket_connect.header_untouched: but for s->ctl, no field of the socket header changes (poll counter included) */
 CONNECT_HDR(s)
 ;
 int xcm_tp_socket_server(struct xcm_socket *s, const char *local_addr)
@@ -339,6 +351,7 @@ CONNECT_SUCCESS_ERRNO(s)
 CONNECT_CTL_POLL(s)
 /* PO[C14,C08] xcm_tp_socket_server.ctl_enabled_iff_success_and_auto */
 CONNECT_CTL_ENABLE(s)
+/* PO[C14] xcm_tp_socket_server.header_untouched: but for s->ctl, no field of the socket header changes (poll counter included) */
 CONNECT_HDR(s)
 ;
 
@@ -352,7 +365,7 @@ CONNECT_HDR(s)
 #define ACC_EN_N ((ACC_OK && conn_s->auto_enable_ctl) ? 1 : 0)
 #define ACC_UPD_N ((ACC_OK && conn_s->auto_update) ? 1 : 0)
 int xcm_tp_socket_accept(struct xcm_socket *conn_s, struct xcm_socket *server_s)
-__CPROVER_requires(SOCK_REQ(conn_s) && SOCK_REQ(server_s) && XV_TP_RANGE_IN && CTL_PENDING_OK(conn_s))
+__CPROVER_requires(SOCK_REQ(conn_s) && SOCK_REQ(server_s) && XV_TP_RANGE_IN && CTL_PENDING_OK(conn_s) && G_BIND_AUTO(conn_s) && G_BIND_CTL(server_s))
 __CPROVER_assigns(OP_ASSIGNS, UPD_ASSIGNS, EN_ASSIGNS, CTLP_ASSIGNS, CTLC_ASSIGNS, xv_ctl_live, conn_s->ctl, server_s->skipped_ctl_calls)
 /* PO[C04] xcm_tp_socket_accept.op_first_once_rv_is_ops: the transport's accept(conn_s, server_s) is the first call, made once; its result is returned */
 __CPROVER_ensures(XV_INC(xv_op_calls) && xv_op_kind == XV_OP_ACCEPT && xv_op_s == conn_s && xv_op_a1 == server_s && \
@@ -376,7 +389,7 @@ __CPROVER_ensures(HDR_SAME_BUT_CTL(conn_s) && XV_SAME(conn_s->skipped_ctl_calls)
  * Order as coded: the operation ; consider_ctl ; [update if auto_update].  PERM/TEMP: how consider_ctl is told about
  * the outcome (a receive of 0 = end of stream counts as final, too). */
 #define IO_REQ(s) \
-__CPROVER_requires(SOCK_REQ(s) && XV_TP_RANGE_IN) \
+__CPROVER_requires(SOCK_REQ(s) && XV_TP_RANGE_IN && G_BIND(s)) \
 __CPROVER_assigns(OP_ASSIGNS, UPD_ASSIGNS, CTLP_ASSIGNS, (s)->skipped_ctl_calls)
 #define IO_OP_ONCE(KIND, s, a1, a2) \
 __CPROVER_ensures(XV_INC(xv_op_calls) && xv_op_kind == (KIND) && xv_op_s == (s) && xv_op_a1 == (a1) && xv_op_a2 == (a2) && \
@@ -403,6 +416,7 @@ IO_ERRNO
 IO_UPDATE(s)
 /* PO[C14] xcm_tp_socket_send.ctl_rate_between_op_and_update */
 IO_CTL(s, IO_PERM, IO_TEMP)
+/* PO[C14] xcm_tp_socket_send.header_untouched: but for the poll counter, no field of the socket header changes */
 IO_HDR(s)
 ;
 /* (end of stream, 0, is final for the ctl counter like a hard error) */
@@ -416,6 +430,7 @@ IO_ERRNO
 IO_UPDATE(s)
 /* PO[C14] xcm_tp_socket_receive.ctl_rate_between_op_and_update */
 IO_CTL(s, (__CPROVER_return_value == 0 || IO_PERM), IO_TEMP)
+/* PO[C14] xcm_tp_socket_receive.header_untouched: but for the poll counter, no field of the socket header changes */
 IO_HDR(s)
 ;
 int xcm_tp_socket_finish(struct xcm_socket *s)
@@ -428,6 +443,7 @@ IO_ERRNO
 IO_UPDATE(s)
 /* PO[C14] xcm_tp_socket_finish.ctl_rate_between_op_and_update */
 IO_CTL(s, IO_PERM, IO_TEMP)
+/* PO[C14] xcm_tp_socket_finish.header_untouched: but for the poll counter, no field of the socket header changes */
 IO_HDR(s)
 ;
 
@@ -436,7 +452,7 @@ IO_HDR(s)
  * close leaves alone and xcm.c destroys afterwards), then the transport's close/cleanup; owner == true for close (the
  * control socket file is unlinked), false for cleanup (a forked child must leave the owner's files alone). */
 #define CLOSE_REQ(s) \
-__CPROVER_requires((s) == NULL || SOCK_REQ(s)) \
+__CPROVER_requires((s) == NULL || (SOCK_REQ(s) && G_BIND(s))) \
 __CPROVER_requires(XV_TP_RANGE_IN) \
 __CPROVER_assigns(OP_ASSIGNS, CTLD_ASSIGNS, xv_ctl_live)
 #define CLOSE_NULL(s) \
